@@ -77,6 +77,19 @@ def generate(rng, tier, index):
         # the 12-byte marker window (6 bytes before / 6 bytes after the end of the masked configuration) lies across or next
         # to a multiple of 4096 / 8192: block-wise scanners have to carry it over
         at = max(0, rng.choice([8192, 8192, 12288, 16384, 65536, 65536, 131072]) - 6138 + rng.randint(-14, 8))
+    pe_spec = xor_spec = None
+    if container == "xorpe":
+        pe_spec = {"arch": rng.choice(["x86", "x64"]), "e_lfanew": rng.choice([64, 128, 240]), "compile": rng.getrandbits(32),
+                   "export": rng.choice([None, rng.getrandbits(32)]), "text": 16, "seed": rng.getrandbits(16),
+                   "prepend": rng.choice([0, 0, 3]), "append": ""}
+        xor_spec = {"nonce": hx(bytes(rng.getrandbits(8) for _ in range(4))), "stub": hx(b"\x90" * rng.randint(0, 40) + b"\xff\xff\xff")}
+        if boundary:
+            # inside a PE the protected area starts at the data section: the boundary is meant in the decoded stream (what the
+            # scanner reads through the XorEncoded view), for some plans in the stored file
+            from dst.storage.images import pe_data_offset
+            shift = pe_data_offset(pe_spec) + (len(unhx(xor_spec["stub"])) + 8 if rng.random() < 0.3 else 0)
+            if at - shift >= 0:
+                at -= shift
     plan = {"container": container, "size": at + rng.choice([0, 0, 50, 700]), "filler": {"kind": "random", "seed": rng.getrandbits(24)},
             "guards": [{"at": at, "settings": settings, "env_key": hx(key), "guard": guard, "checksum_delta": 0,
                         # the checksum option is usually last; it may sit anywhere after the first guard option
@@ -92,10 +105,8 @@ def generate(rng, tier, index):
         opt = rng.choice([5, 6, 7, 8])
         plan["stray"] = {"at": rng.randint(6138, at - 13), "a": hx(bytes(rng.getrandbits(8) for _ in range(6))), "opt": opt}
     if container == "xorpe":
-        plan["pe"] = {"arch": rng.choice(["x86", "x64"]), "e_lfanew": rng.choice([64, 128, 240]), "compile": rng.getrandbits(32),
-                      "export": rng.choice([None, rng.getrandbits(32)]), "text": 16, "seed": rng.getrandbits(16),
-                      "prepend": rng.choice([0, 0, 3]), "append": ""}
-        plan["xor"] = {"nonce": hx(bytes(rng.getrandbits(8) for _ in range(4))), "stub": hx(b"\x90" * rng.randint(0, 40) + b"\xff\xff\xff")}
+        plan["pe"] = pe_spec
+        plan["xor"] = xor_spec
     if rng.random() < 0.35:
         enc_len = len(builder.encode_settings(settings, pad_to=None))
         for _ in range(rng.choice([1, 1, 2])):
@@ -116,6 +127,11 @@ def generate(rng, tier, index):
             plan["prior"] = "genuine_first"
         elif r < 0.55:
             plan["prior"] = "corrupted_first"
+    elif rng.random() < 0.15 and len(key) <= 85:
+        # a three-step history in one process: two payloads whose environmental key is m times as long, then this one
+        m = rng.choice([2, 2, 3])
+        plan["prior"] = "related_keys"
+        plan["prior_key"] = hx(bytes(rng.getrandbits(8) | 1 for _ in range(len(key) * m)))
     return plan
 
 
@@ -203,6 +219,19 @@ def execute(plan: dict) -> Result:
         if res.discarded or res.violations:
             return res
         _stage(_strip_faults(plan), res, "2nd:")
+    elif prior == "related_keys":
+        import copy
+        res.probes["history_keys_of_related_lengths"] += 1
+        q = copy.deepcopy(plan)
+        q.pop("prior")
+        q["guards"][0]["env_key"] = plan["prior_key"]
+        for nth in ("1st:", "2nd:"):
+            _stage(q, res, nth)
+            if res.discarded or res.violations:
+                return res
+        q = copy.deepcopy(plan)
+        q.pop("prior")
+        _stage(q, res, "3rd:")
     else:
         _stage(plan, res, "")
     return res
